@@ -89,13 +89,47 @@ class Plugin:
             return ["eq", v, w]
         return ["eqplain", v, self._rand_items(rng, keys)]
 
+    @staticmethod
+    def _near_plain(rng, items):
+        """plain mappings close to the content a header map built from `items` has: the same content spelled
+        differently, with a name given twice in two spellings (the later one wins), or with one name missing and
+        another one doubled (same length, different content)"""
+        cur = {}
+        for k, v in items:
+            cur[k.lower()] = v
+        base = [[k, v] for k, v in cur.items()]
+        if not base:
+            return [[]]
+
+        def respell(k):
+            c = [x for x in (k.upper(), k.lower(), k.title(), k.swapcase()) if x.lower() == k.lower()]
+            return rng.choice(c)
+        out = [[[respell(k), v] for k, v in base]]
+        i = rng.randrange(len(base))
+        k, v = base[i]
+        alt = [x for x in (k.upper(), k.title(), k.swapcase()) if x != k and x.lower() == k.lower()]
+        if alt:
+            a = rng.choice(alt)
+            out.append(base[:i] + [[k, v], [a, v]] + base[i + 1:])                 # doubled, same value
+            out.append(base[:i] + [[k, v + 1], [a, v]] + base[i + 1:])             # doubled, the later value is right
+            out.append(base[:i] + [[a, v], [k, v + 1]] + base[i + 1:])             # doubled, the later value is wrong
+            if len(base) > 1:
+                j = (i + 1) % len(base)
+                rest = [e for n, e in enumerate(base) if n not in (i, j)]
+                out.append(rest + [[k, v], [a, v]])                                # one name missing, another doubled
+        return out
+
     def _random_case(self, rng, depth):
         keys = rng.choice([SMALL_KEYS, KEYS[:8], KEYS])
         ops = [["new", 0, self._rand_items(rng, keys), "plain"]]
         bound = [0]
+        if rng.random() < 0.5:
+            ops += [["eqplain", 0, it] for it in self._near_plain(rng, ops[0][2])]
         for _ in range(depth):
             op = self._rand_op(rng, keys, bound)
             ops.append(op)
+            if op[0] == "new" and rng.random() < 0.4:
+                ops += [["eqplain", op[1], it] for it in rng.sample(self._near_plain(rng, op[2]), 1)]
             if op[0] in ("new", "newfrom", "copy", "combine", "combinelower") and op[1] not in bound:
                 bound.append(op[1])
         for v in bound:
@@ -105,12 +139,12 @@ class Plugin:
     def _small_ops(self):
         out = []
         V = [0, 1]
-        items_new = [[], [["a", 1]], [["A", 2], ["a", 3]], [["a", 1], ["b", 2]]]
+        items_new = [[], [["a", 1]], [["A", 2], ["a", 3]], [["a", 1], ["b", 2]], [["a", 1], ["A", 1]], [["A", 3], ["a", 2]]]
         items_low = [[["a", 5]], [["b", 6]]]
         for v in V:
             out += [["new", v, it, "plain"] for it in items_new]
             out += [["replaceplain", v, it] for it in items_new[2:]]
-            out += [["eqplain", v, it] for it in items_new[1:3]]
+            out += [["eqplain", v, it] for it in items_new[1:3] + items_new[4:]]
             out += [["len", v], ["iter", v], ["aslower", v]]
             for k in SMALL_KEYS:
                 out += [["set", v, k, 7], ["del", v, k], ["pop", v, k], ["get", v, k], ["contains", v, k]]
